@@ -220,9 +220,9 @@ def pchisq(x, df, log=False):
     https://stat.ethz.ch/R-manual/R-patched/library/stats/html/Chisquare.html
     '''
     if log:
-        return st.chi2.logpdf(x, df=df)
+        return st.chi2.logcdf(x, df=df)
     else:
-        return st.chi2.pdf(x, df=df)
+        return st.chi2.cdf(x, df=df)
 
 def qchisq(p, df):
     '''
